@@ -11,8 +11,9 @@ namespace Cg.E2E.C11
 open Cg Cg.Gen.C11 Real
 variable [FRem ℝ] [Lits ℝ]
 
-/-- `Vector1`: `magnitude(v)^2 = magnitude2(v) ≥ 0`; `distance` is symmetric, the magnitude of the difference, its square is
-`distance2`; for `v ≠ 0`, `normalize(v)` has length 1, `normalize_to(v, m)` length `|m|` and is a positive multiple of `v` when
+/-- `Vector1`: `magnitude(v)^2 = magnitude2(v)` (no `0 ≤ magnitude2(v)` conjunct here: that is model level,
+`magnitude_sq` in `Props/C11.lean`); `distance` is symmetric, the magnitude of the difference, its square is
+`distance2`; the whole theorem is under `0 < magnitude2(v)`, i.e. `v ≠ 0`: `normalize(v)` has length 1, `normalize_to(v, m)` length `|m|` and is a positive multiple of `v` when
 `m > 0`; `project_on(u, v)` is parallel to `v` and `u - project_on(u, v)` is orthogonal to `v` -/
 theorem code_v1_metric (u v : V1 ℝ) (m : ℝ) (hv : 0 < v.magnitude2) :
     ∃ (mg d : ℝ) (nz nt pr : V1 ℝ), Cg.Gen.C03.t_v1_magnitude (envL v.toList) = .okS [mg] ∧
@@ -27,8 +28,9 @@ theorem code_v1_metric (u v : V1 ℝ) (m : ℝ) (hv : 0 < v.magnitude2) :
   exact ⟨_, _, _, _, _, Trace.C03Auto.t_v1_magnitude v, Trace.C03Auto.t_v1_distance u v, Trace.C03Auto.t_v1_normalize v, Trace.C03Auto.t_v1_normalize_to v m, Trace.C03Auto.t_v1_project_on u v, (C11.V1.magnitude_sq v).1, d1, d2, d3,
     n2, n1, n3, p1, p2⟩
 
-/-- `Vector2`: `magnitude(v)^2 = magnitude2(v) ≥ 0`; `distance` is symmetric, the magnitude of the difference, its square is
-`distance2`; for `v ≠ 0`, `normalize(v)` has length 1, `normalize_to(v, m)` length `|m|` and is a positive multiple of `v` when
+/-- `Vector2`: `magnitude(v)^2 = magnitude2(v)` (no `0 ≤ magnitude2(v)` conjunct here: that is model level,
+`magnitude_sq` in `Props/C11.lean`); `distance` is symmetric, the magnitude of the difference, its square is
+`distance2`; the whole theorem is under `0 < magnitude2(v)`, i.e. `v ≠ 0`: `normalize(v)` has length 1, `normalize_to(v, m)` length `|m|` and is a positive multiple of `v` when
 `m > 0`; `project_on(u, v)` is parallel to `v` and `u - project_on(u, v)` is orthogonal to `v` -/
 theorem code_v2_metric (u v : V2 ℝ) (m : ℝ) (hv : 0 < v.magnitude2) :
     ∃ (mg d : ℝ) (nz nt pr : V2 ℝ), t_v2_magnitude (envL v.toList) = .okS [mg] ∧
@@ -43,8 +45,9 @@ theorem code_v2_metric (u v : V2 ℝ) (m : ℝ) (hv : 0 < v.magnitude2) :
   exact ⟨_, _, _, _, _, Trace.C11.t_v2_magnitude v, Trace.C03Auto.t_v2_distance u v, Trace.C03Auto.t_v2_normalize v, Trace.C03Auto.t_v2_normalize_to v m, Trace.C03Auto.t_v2_project_on u v, (C11.V2.magnitude_sq v).1, d1, d2, d3,
     n2, n1, n3, p1, p2⟩
 
-/-- `Vector4`: `magnitude(v)^2 = magnitude2(v) ≥ 0`; `distance` is symmetric, the magnitude of the difference, its square is
-`distance2`; for `v ≠ 0`, `normalize(v)` has length 1, `normalize_to(v, m)` length `|m|` and is a positive multiple of `v` when
+/-- `Vector4`: `magnitude(v)^2 = magnitude2(v)` (no `0 ≤ magnitude2(v)` conjunct here: that is model level,
+`magnitude_sq` in `Props/C11.lean`); `distance` is symmetric, the magnitude of the difference, its square is
+`distance2`; the whole theorem is under `0 < magnitude2(v)`, i.e. `v ≠ 0`: `normalize(v)` has length 1, `normalize_to(v, m)` length `|m|` and is a positive multiple of `v` when
 `m > 0`; `project_on(u, v)` is parallel to `v` and `u - project_on(u, v)` is orthogonal to `v` -/
 theorem code_v4_metric (u v : V4 ℝ) (m : ℝ) (hv : 0 < v.magnitude2) :
     ∃ (mg d : ℝ) (nz nt pr : V4 ℝ), t_v4_magnitude (envL v.toList) = .okS [mg] ∧
@@ -59,8 +62,9 @@ theorem code_v4_metric (u v : V4 ℝ) (m : ℝ) (hv : 0 < v.magnitude2) :
   exact ⟨_, _, _, _, _, Trace.C11.t_v4_magnitude v, Trace.C03Auto.t_v4_distance u v, Trace.C03Auto.t_v4_normalize v, Trace.C03Auto.t_v4_normalize_to v m, Trace.C03Auto.t_v4_project_on u v, (C11.V4.magnitude_sq v).1, d1, d2, d3,
     n2, n1, n3, p1, p2⟩
 
-/-- `Quaternion`: `magnitude(v)^2 = magnitude2(v) ≥ 0`; `distance` is symmetric, the magnitude of the difference, its square is
-`distance2`; for `v ≠ 0`, `normalize(v)` has length 1, `normalize_to(v, m)` length `|m|` and is a positive multiple of `v` when
+/-- `Quaternion`: `magnitude(v)^2 = magnitude2(v)` (no `0 ≤ magnitude2(v)` conjunct here: that is model level,
+`magnitude_sq` in `Props/C11.lean`); `distance` is symmetric, the magnitude of the difference, its square is
+`distance2`; the whole theorem is under `0 < magnitude2(v)`, i.e. `v ≠ 0`: `normalize(v)` has length 1, `normalize_to(v, m)` length `|m|` and is a positive multiple of `v` when
 `m > 0`; `project_on(u, v)` is parallel to `v` and `u - project_on(u, v)` is orthogonal to `v` -/
 theorem code_q_metric (u v : Quat ℝ) (m : ℝ) (hv : 0 < v.magnitude2) :
     ∃ (mg d : ℝ) (nz nt pr : Quat ℝ), t_q_magnitude (envL v.toList) = .okS [mg] ∧
